@@ -147,6 +147,8 @@ const smtHeader = `(set-option :produce-models true)
 (declare-datatypes ((Any 0)) (((anil) (abool (tg0 Int) (abv Bool)) (aint (tg1 Int) (aiv Int)) (areal (tg2 Int) (arv Real)) (astr (tg3 Int) (asv Str)) (aref (tg4 Int) (arf Int)) (aslice (tg5 Int) (aslv Slice)) (abox (tg6 Int) (abx Int)))))
 (define-fun tagof ((a Any)) Int (ite ((_ is anil) a) 0 (ite ((_ is abool) a) (tg0 a) (ite ((_ is aint) a) (tg1 a) (ite ((_ is areal) a) (tg2 a) (ite ((_ is astr) a) (tg3 a) (ite ((_ is aref) a) (tg4 a) (ite ((_ is aslice) a) (tg5 a) (tg6 a)))))))))
 (define-fun slicewf ((s Slice)) Bool (and (>= (slen s) 0) (>= (scap s) (slen s)) (>= (soff s) 0) (>= (sref s) 0) (=> (= (sref s) 0) (and (= (slen s) 0) (= (scap s) 0)))))
+(declare-fun uncomparable (Int) Bool)
+(assert (not (uncomparable 0)))
 (declare-fun gorem (Int Int) Int)
 (declare-fun goquot (Int Int) Int)
 (declare-fun strlen (Str) Int)
@@ -188,7 +190,11 @@ func (e *Enc) tag(t types.Type) string {
 		e.tags[k] = len(e.tags) + 1
 		e.tagList = append(e.tagList, k)
 		e.tagTy[k] = t
-		e.decl("tag:"+k, fmt.Sprintf("(define-fun %s () Int %d)", sym("tag$"+k), e.tags[k]))
+		fact := "(assert (not (uncomparable " + fmt.Sprint(e.tags[k]) + ")))"
+		if !types.Comparable(t) {
+			fact = "(assert (uncomparable " + fmt.Sprint(e.tags[k]) + "))"
+		}
+		e.decl("tag:"+k, fmt.Sprintf("(define-fun %s () Int %d)\n%s", sym("tag$"+k), e.tags[k], fact))
 	}
 	return sym("tag$" + k)
 }
